@@ -97,11 +97,26 @@ def _work(args):
     arr = np.array(vals, dtype=float)
     before = arr.copy()
     findings = []
+    # the container the values arrive in: a plain array, or - as `CeiloChunk.data_rescaled` passes them - a column of a
+    # table whose row labels are whatever survived the crop (gaps, any order); the result is assigned back to that column
+    import pandas as pd
+    container = rng.choice(['ndarray', 'ndarray', 'ndarray', 'series', 'series_gapped', 'series_gapped'])
+    if container == 'ndarray':
+        carrier, frame = arr, None
+    else:
+        labels = list(range(len(vals))) if container == 'series' else rng.sample(range(0, 3 * len(vals) + 2), len(vals))
+        frame = pd.DataFrame({'v': arr.copy()}, index=labels)
+        carrier = frame['v']
     with warnings.catch_warnings():
         warnings.simplefilter('ignore')
         with np.errstate(all='ignore'):
             try:
-                out = scaler.apply_scaling(arr, fct, **dict(kwargs))
+                out = scaler.apply_scaling(carrier, fct, **dict(kwargs))
+                if frame is not None:
+                    frame['w'] = out                       # label-aligned when a Series comes back, positional otherwise
+                    out = frame['w'].to_numpy(dtype=float)
+                    if not np.array_equal(frame['v'].to_numpy(), before, equal_nan=True):
+                        findings.append(('C19.argument-untouched', 'input column modified'))
                 out_tok = ' '.join(common.frac(float(x)) for x in out)
                 ok = True
             except AmpycloudError:
@@ -124,7 +139,7 @@ def _work(args):
                 except Exception as e:
                     findings.append(('C19.undo-restores-the-original', f'undo raised {type(e).__name__}: {e}'))
     req = f"SCALE | SPEC {spec} | VALS {' '.join(common.frac(x) for x in vals)} | OUT {out_tok}"
-    return {'k': k, 'req': req, 'findings': findings, 'kind': kind, 'nan': nan_mode, 'spec': spec.split(':')[0],
+    return {'k': k, 'req': req, 'findings': findings, 'kind': kind, 'nan': nan_mode, 'spec': spec.split(':')[0], 'container': container,
             'digest': hashlib.sha1(req.encode()).hexdigest()[:16], 'n': len(vals)}
 
 
@@ -139,7 +154,7 @@ def run(chk):
     answers = chk.driver.ask([r['req'] for r in results])
     for r, ans in zip(results, answers):
         replay = {'gen': {'seed': chk.seed, 'k': r['k']}}
-        chk.count('mode_' + r['spec']); chk.count('nan_' + r['nan']); chk.count('vals_' + r['kind'])
+        chk.count('mode_' + r['spec']); chk.count('nan_' + r['nan']); chk.count('vals_' + r['kind']); chk.count('container_' + r['container'])
         chk.case(r['digest'], nontrivial=(r['n'] >= 2 and r['spec'] != 'none' and r['nan'] not in ('all', 'all_but_one')),
                  sample={'k': r['k'], 'request': r['req'][:200]} if r['k'] < 4 else None)
         for clause, detail in r['findings']:
